@@ -39,6 +39,8 @@ inductive Err where
   | empty      -- reduction / concat over an empty list of subframes
   | attribute  -- `None.propagate_to` in `__getitem__` (distance before the first frame)
   | index      -- `frames[-1]` of an empty sequence
+  | dtype      -- scipp DTypeError (`sc.concat` of vertices of different dtypes in `_chop`)
+  | unit       -- scipp UnitError (chopper times not in the unit of the frame times)
   deriving Repr, DecidableEq
 
 structure Chopper (α : Type) where
@@ -192,5 +194,106 @@ def Frame.subbounds (f : Frame α) : Except Err (List (α × α × α × α)) :=
   else .error .notimpl
 
 end Kernel
+
+/-! ## dtype-dependent behaviour
+
+The arithmetic of the code depends on the dtypes of its operands in two places: `propagate_times`
+casts its (double precision) result to single precision iff time, wavelength and distance are all
+single precision, and `_chop` builds its output with `sc.concat`, which raises `DTypeError` when the
+kept vertices and the new vertices do not have one dtype. Both are parameters (`Hooks`) of the
+`…H` versions below; with the trivial hooks they are the plain functions above (proved in
+`Lemmas/CascadeTypedGlue.lean`). The carrier that tracks dtypes is `Model/CascadeTyped.lean`. -/
+
+structure Hooks (α : Type) where
+  /-- `sc.concat` accepts this vertex list (one dtype for the times, one for the wavelengths) -/
+  ok : Poly α → Bool
+  /-- `fin t w d r`: the value `propagate_times` returns when its uncast result is `r` -/
+  fin : α → α → α → α → α
+  /-- the chopper's window times are in the unit of the frame times (else `UnitError` in `_chop`) -/
+  timesOk : Chopper α → Bool
+
+def Hooks.trivial {α : Type} : Hooks α := ⟨fun _ => true, fun _ _ _ r => r, fun _ => true⟩
+
+section KernelH
+variable {α : Type} [Add α] [Sub α] [Mul α] [Div α] [OfNat α 1] [LE α] [DecidableLE α]
+  [LT α] [DecidableLT α]
+
+def propagateTimesH (H : Hooks α) (k : Consts α) (t w d : α) : α := H.fin t w d (propagateTimes k t w d)
+
+def shearPolyH (H : Hooks α) (k : Consts α) (d : α) (p : Poly α) : Poly α :=
+  p.map (fun v => (propagateTimesH H k v.1 v.2 d, v.2))
+
+def Frame.propagateToH (H : Hooks α) (k : Consts α) (f : Frame α) (d : α) : Frame α :=
+  ⟨d, f.subframes.map (shearPolyH H k (d - f.dist))⟩
+
+/-- `_chop` including the `sc.concat` of its output -/
+def chopStepH (H : Hooks α) (c : α) (dir : Bool) (poly : Poly α) : Except Err (Option (Poly α)) :=
+  match chopStep c dir poly with
+  | none => .ok none
+  | some out => if H.ok out then .ok (some out) else .error .dtype
+
+def chopWindowH (H : Hooks α) (w : α × α) (sub : Poly α) : Except Err (Option (Poly α)) :=
+  match chopStepH H w.1 true sub with
+  | .error e => .error e
+  | .ok none => .ok none
+  | .ok (some o) => chopStepH H w.2 false o
+
+/-- the inner loop of `Frame.chop` over the windows of the chopper, for one subframe -/
+def chopWindowsH (H : Hooks α) (sub : Poly α) : List (α × α) → Except Err (List (Poly α))
+  | [] => .ok []
+  | w :: ws =>
+    match chopWindowH H w sub with
+    | .error e => .error e
+    | .ok r =>
+      match chopWindowsH H sub ws with
+      | .error e => .error e
+      | .ok rest => .ok (r.toList ++ rest)
+
+/-- the outer loop of `Frame.chop` over the subframes -/
+def chopSubsH (H : Hooks α) (wins : List (α × α)) : List (Poly α) → Except Err (List (Poly α))
+  | [] => .ok []
+  | sub :: subs =>
+    match chopWindowsH H sub wins with
+    | .error e => .error e
+    | .ok r =>
+      match chopSubsH H wins subs with
+      | .error e => .error e
+      | .ok rest => .ok (r ++ rest)
+
+def Frame.chopH (H : Hooks α) (k : Consts α) (f : Frame α) (c : Chopper α) : Except Err (Frame α) :=
+  if c.dist < f.dist then .error .value
+  else
+    let fr := f.propagateToH H k c.dist
+    if !H.timesOk c && !fr.subframes.isEmpty && !c.windows.isEmpty then .error .unit
+    else
+      match chopSubsH H c.windows fr.subframes with
+      | .error e => .error e
+      | .ok subs => .ok ⟨fr.dist, subs⟩
+
+def seqChopSortedH (H : Hooks α) (k : Consts α) : List (Frame α) → List (Chopper α) → Except Err (List (Frame α))
+  | frames, [] => .ok frames
+  | frames, c :: cs =>
+    match frames.getLast? with
+    | none => .error .index
+    | some last =>
+      match last.chopH H k c with
+      | .error e => .error e
+      | .ok f => seqChopSortedH H k (frames ++ [f]) cs
+
+def seqChopH (H : Hooks α) (k : Consts α) (frames : List (Frame α)) (cs : List (Chopper α)) :
+    Except Err (List (Frame α)) :=
+  seqChopSortedH H k frames (sortByDist cs)
+
+def seqPropagateToH (H : Hooks α) (k : Consts α) (frames : List (Frame α)) (d : α) : Except Err (List (Frame α)) :=
+  match frames.getLast? with
+  | none => .error .index
+  | some last => .ok (frames ++ [last.propagateToH H k d])
+
+def seqGetItemH (H : Hooks α) (k : Consts α) (frames : List (Frame α)) (d : α) : Except Err (Frame α) :=
+  match frameBefore d frames none with
+  | none => .error .attribute
+  | some f => .ok (f.propagateToH H k d)
+
+end KernelH
 
 end ScnVerif.Cascade
